@@ -676,8 +676,28 @@ impl World {
 
     fn do_shrink(&mut self, id: u32, new_size: usize, new_align: usize) -> Result<(), Fail> {
         let Some((mi, b)) = self.find_block(id) else { skip!(self) };
-        if b.kind != Kind::Raw || !self.usable(b.level) || new_size > b.len || !new_align.is_power_of_two() || new_align > b.align || !self.models[mi].is_tail(&b) {
+        let tail = self.models[mi].is_tail(&b);
+        if b.kind != Kind::Raw || !self.usable(b.level) || new_size > b.len || !new_align.is_power_of_two() || new_align > b.align || (!tail && cfg!(debug_assertions)) {
             skip!(self);
+        }
+        if !tail {
+            // not the most recent block (builds without debug assertions only): the call must
+            // return the same block and change nothing - the model stays as it is, so the overlap,
+            // bounds and content checks of every later step see whether it did
+            let (Ok(old_layout), Ok(new_layout)) = (Layout::from_size_align(b.len, b.align), Layout::from_size_align(new_size, new_align)) else { skip!(self) };
+            let a = self.arena_of(b.level);
+            self.last_model = mi;
+            let old_addr = self.models[mi].base + b.start;
+            let res = unsafe { a.shrink(NonNull::new(b.ptr).expect("nonnull"), old_layout, new_layout) };
+            self.stat("op.shrink_inner");
+            let mut c = self.ctx(mi);
+            c["block"] = json!({"id": id, "start": b.start, "len": b.len});
+            c["request"] = json!({"new_size": new_size, "inner": true});
+            return match res {
+                Err(_) => Err(fail("arena|spurious-failure", c)),
+                Ok(p) if p.cast::<u8>().as_ptr() as usize != old_addr => Err(fail("arena|shrink-moved", c)),
+                Ok(_) => Ok(()),
+            };
         }
         let (Ok(old_layout), Ok(new_layout)) = (Layout::from_size_align(b.len, b.align), Layout::from_size_align(new_size, new_align)) else { skip!(self) };
         let a = self.arena_of(b.level);
